@@ -8,8 +8,8 @@ Dimensions of a history (fields of a case, all optional):
          again) | scale (callable instances with __eq__/__hash__) | mixed | picky (== with a foreign
          type raises)
   kf     key universe: plain | fresh (an equal string built again for every use) | int (mk only)
-  decoy  a second dict of the same class receives mirrored operations (sharing the value objects)
-         between the steps; the dict under test must not notice
+  decoy  a second dict of the same class receives mirrored operations (sharing the value objects) and
+         lookups between the steps; the dict under test must not notice
   view   "all" | "last" | {"every": n}: after which steps the whole state is observed
 and of an operation: rejected operations (`setu` unhashable value, `setbk` unhashable key in the tuple,
 `setns` non-string StrategyDict name, `bad` lookup / deletion with an unhashable operand) — whatever
@@ -42,7 +42,8 @@ RULE = ("exhaustive histories over small universes (mk: 3 keys x 2 values, tuple
         "24 assignments + 3 deletions, depth <= 3 (thorough: depth 4, and 3 values x 3 keys depth 4); "
         "sd: 2 names x 2 strategies incl. attribute / default manipulation, 16 operations, depth <= 3 "
         "(thorough: 4); the sd enumeration again with equal-but-not-identical strategies (bound methods fetched "
-        "again / callable instances with __eq__) where a class is stored twice; mk and sd enumerations with "
+        "again / callable instances with __eq__) where a class is stored twice; the mk enumeration (depth <= 2, a fifth of depth 3) "
+        "with fresh equal keys and values; mk and sd enumerations with "
         "rejected operations (unhashable value, unhashable key in the tuple, non-string name, unhashable lookup "
         "operand) mixed in, depth <= 3) plus random histories (length <= 40, 6 keys, 4 values, tuples with "
         "repeats, lookups interleaved; value universes int / 1-1.0-True / fresh tuples / fresh strings / bound "
@@ -598,13 +599,18 @@ def generate(rng, tier, scale=1):
         # ... again where equality and identity differ: every assignment hands in a NEW equal object
         for depth in (2, 3):
             for n, h in enumerate(itertools.product(sops, repeat=depth)):
-                if _stores_class_twice(h) and (depth < 3 or not quick or n % 2 == 0):
+                if _stores_class_twice(h):
                     cases.append(_case("sd", list(h), view="all", vf=("bound", "scale")[(n // 2) % 2],
                                        kf=("plain", "fresh")[(n // 4) % 2]))
         for depth in (1, 2):
             for n, h in enumerate(itertools.product(ops, repeat=depth)):
                 cases.append(_case("mk", list(h), view="all", vf=("tuple", "num", "str", "scale")[n % 4],
                                    kf=("fresh", "int")[(n // 4) % 2]))
+        if quick:
+            for n, h in enumerate(itertools.product(ops, repeat=3)):
+                if n % 5 == 0:
+                    cases.append(_case("mk", list(h), view="last", vf=("tuple", "num", "str", "scale", "bound")[(n // 5) % 5],
+                                       kf=("fresh", "int", "plain")[(n // 25) % 3]))
         # ... and with rejected operations mixed in
         for depth in (1, 2, 3) if not quick else (1, 2):
             for h in _with_rejected(MK_REJ_BASE, MK_REJ, depth):
@@ -841,6 +847,7 @@ def _impl_mk(c):
             obj = u.val(op[2], op[3] if len(op) > 3 else 0)
             if decoy is not None:
                 _quiet(lambda: decoy.__setitem__(_setkey(u, [_rot(c, k) for k in names], o == "sets"), obj))
+                _quiet(lambda: (decoy.value2keys(obj), decoy.key2keys(u.key(_rot(c, names[0]))), len(decoy)))
 
             def f():
                 d[key] = obj
@@ -889,7 +896,7 @@ def _impl_mk(c):
             elif w == "k2k":
                 r = _run(lambda: d.key2keys([]), _NOT_THERE)
             elif w == "v2k":
-                r = _run(lambda: d.value2keys([]) and None, _NOT_THERE)
+                r = _run(lambda: (d.value2keys([]), None)[1], _NOT_THERE)
                 r = {"err": "Rejected"} if r is None else r       # "no key holds it" is an answer too
             elif w == "gett":
                 r = _run(lambda: d[(u.key(keys[0]), [])], _NOT_THERE)
@@ -969,6 +976,7 @@ def _impl_sd(c):
             obj = u.val(op[2], 0)
             if decoy is not None:
                 _quiet(lambda: decoy.__setitem__(_setkey(u, [_rot(c, k) for k in op[1]], True), obj))
+                _quiet(lambda: (decoy.value2keys(obj), decoy.key2keys(u.key(_rot(c, op[1][0]))), decoy(0), decoy.default))
             r = _run(lambda: assign(op[1], obj, True), None, booms, i)
         elif o == "del":
             if decoy is not None:
@@ -1024,7 +1032,7 @@ def _impl_sd(c):
             elif w == "k2k":
                 r = _run(lambda: sd.key2keys([]), _NOT_THERE)
             elif w == "v2k":
-                r = _run(lambda: sd.value2keys([]) and None, _NOT_THERE)
+                r = _run(lambda: (sd.value2keys([]), None)[1], _NOT_THERE)
                 r = {"err": "Rejected"} if r is None else r
             else:
                 raise ValueError("unknown bad operand %r" % (op,))
